@@ -73,6 +73,7 @@ def parse_case(line):
     c.select = None if o[4] == "-" else o[4].split("+")
     c.bypass = o[5] == "1"
     c.fwd = "" if o[6] == "-" else o[6]
+    c.flags = o[7] if len(o) > 7 else "000"
     c.filters = []
     for fs in _list(f[6], ";"):
         attr, op, operand = fs.split("~", 2)
@@ -230,6 +231,10 @@ def oracle(case, impl):
     a = _analyse(c)
     upd = o.calls.pop(c.local + "#upd", None)
     ncalls = sum(len(v) for v in o.calls.values())
+    for cid, calls in o.calls.items():
+        for req, _ in calls:
+            if req.get("X", "000") != c.flags:
+                return f"backend {cid} did not get the request's include_trash/include_old_versions/distinct options"
     if c.login and c.login != c.local and not c.bypass:
         # conn.go UserList with a LoginCluster: not the federated list of the property. What its comment and
         # batchUpdateUsers promise: one call to the login cluster's backend (local if it has no proxy), options
@@ -456,7 +461,8 @@ def _operand(rng, uuids, allow_nonstring=True):
 
 def _fmt(kind, local, mx, remotes, opts, filters, world, scripts):
     o = "/".join([opts["count"] or "~", str(opts["limit"]), str(opts["offset"]), "+".join(opts["order"]) or "-",
-                  "+".join(opts["select"]) if opts["select"] else "-", "1" if opts["bypass"] else "0", opts["fwd"] or "-"])
+                  "+".join(opts["select"]) if opts["select"] else "-", "1" if opts["bypass"] else "0", opts["fwd"] or "-",
+                  opts.get("flags", "000")])
     w = ",".join(f"{u}@{ts}" for u, ts in world) or "-"
     s = ";".join(f"{i}={'|'.join(a)}" for i, a in scripts.items() if a) or "-"
     return f"list {kind} {local} {mx} {','.join(remotes) or '-'} {o} {';'.join(filters) or '-'} {w} {s}"
@@ -614,6 +620,8 @@ def _opts(rng, splittable=True):
         o["select"] = rng.choice([["uuid"], ["name"], ["uuid", "name"], ["modified_at", "name", "owner_uuid"]])
     if rng.random() < 0.1:
         o["limit"] = rng.choice([-2, -100])
+    if rng.random() < 0.2:
+        o["flags"] = rng.choice(["100", "010", "001", "110", "111"])  # include_trash, include_old_versions, distinct
     if not splittable:
         r = rng.random()
         if r < 0.25:
